@@ -116,6 +116,24 @@ def run(ctx):
     if "X-EXIT-STATUS:0" not in sec or "X-SIGNAL" in sec:
         fails.append("a request of two tasks: the first (DURATION:PT2S) cannot be started, the second (`sleep 4', no limit) must run to its end; its journal entry: %s"
                      % (re.findall(r"X-SIGNAL:.*|X-EXIT-STATUS:.*|STATUS:.*", sec) or j[-200:]))
+    # (1b) what the job's shell has forked (recorded finding, class job-descendants)
+    surv = os.path.join(base2, "survivor.txt")
+    desc = "\n".join(["BEGIN:VCALENDAR", "VERSION:2.0", "BEGIN:VTODO", "UID:pipe", "SUMMARY:{ sleep 5; date > %s; } | cat" % surv, "LOCATION:%s" % base2, "DURATION:PT2S"] + head +
+                     ["END:VTODO", "END:VCALENDAR", ""])
+    t1 = time.time()
+    try:
+        r = subprocess.run([exe, "-v"], input=desc.encode(), stdout=subprocess.PIPE, stderr=subprocess.PIPE, env=env, timeout=60)
+        j = r.stdout.decode("latin-1")
+    except subprocess.TimeoutExpired:
+        j = "TIMEOUT"
+    time.sleep(max(0.0, 6.5 - (time.time() - t1)))
+    obs.append("pipeline under PT2S: journal %s, the part behind the pipe %s" % (re.findall(r"X-SIGNAL:\d+|X-EXIT-STATUS:\d+", j), "ran on to its end" if os.path.exists(surv) else "was stopped"))
+    if os.path.exists(surv):
+        kn = [k for k in common.load_known("C14") if k.get("status") == "known" and k.get("class") == "job-descendants"]
+        if kn:
+            ctx.known(kn[0]["what"])
+        else:
+            fails.append("`{ sleep 5; date > survivor; } | cat' under DURATION:PT2S: journalled %s, but the command behind the pipe ran on and wrote its file" % re.findall(r"X-SIGNAL:\d+", j))
     # (2) the limit runs out while echsx is still opening the task's stdin (a FIFO nobody writes to): nothing but the task may be hit
     fifo = os.path.join(base2, "fifo")
     os.mkfifo(fifo)
